@@ -59,3 +59,4 @@ for _o in OBLIGATIONS:
     if _o["id"].startswith("ib."):
         _o["tier"] = "thorough"
         _o["rss_gb"] = 26
+
